@@ -15,6 +15,7 @@ type SpySigner struct {
 	Out    []byte // signature to return (default: fixed 64 bytes)
 	Err    error  // error to return
 	ReadN  int    // bytes to read from rand before answering (0 = none)
+	Panic  any    // when non-nil, Sign panics with this value
 	mu     sync.Mutex
 	Calls  int
 	Got    [][]byte // copies of every content seen
@@ -50,6 +51,9 @@ func (s *SpySigner) Sign(rand io.Reader, content []byte) ([]byte, error) {
 			return nil, err
 		}
 	}
+	if s.Panic != nil {
+		panic(s.Panic)
+	}
 	if s.Err != nil {
 		return s.Out, s.Err
 	}
@@ -73,6 +77,7 @@ type SpyVerifier struct {
 	Alg    cose.Algorithm
 	Err    error
 	Index  int // position given by the test (for positional checks)
+	Panic  any // when non-nil, Verify panics with this value (a key backend that crashes)
 	Log    *[]VerifyCall
 	mu     sync.Mutex
 	Calls  int
@@ -96,6 +101,9 @@ func (v *SpyVerifier) Verify(content, signature []byte) error {
 	v.GotSig = append(v.GotSig, append([]byte{}, signature...))
 	if v.Log != nil {
 		*v.Log = append(*v.Log, VerifyCall{v.Index, append([]byte{}, content...), append([]byte{}, signature...)})
+	}
+	if v.Panic != nil {
+		panic(v.Panic)
 	}
 	return v.Err
 }
